@@ -20,6 +20,9 @@ open AITB AITB.Pol
     pgaapp  <comp> n S lr pl k { s q[n] }       | k×row[n] S×row[n] ns { s u act }
     thompson <comp> n cnt[n] val[n]             | act                                    val = the implementation-side posterior draws
     mc      <comp> n                            | policy[n] probs[n] ns { act }          Monte-Carlo tables: range / normalisation only
+    recommend <comp> n mean[n]                  | act                                    TopTwo / T3C recommendAction
+    fprob   <comp> m A[m] eps g[m] np { a[m] p } ns { act[m] }                           factored policies: queries over the whole joint space
+    mc2     <comp> n trials cnt[n] qtrials qcnt[n] | policy[n] probs[n]                  Monte-Carlo tables vs the sampling counts of an identical copy
     esrl    <comp> n a N phases window k { act res } | (k+1)×( exploit probs[n] policy[n] act )
     sr      <comp> n k { nk mean[n] }           | nk1 (k+1)×( cur probs[n] policy[n] )
     toptwo  <comp> n cnt[n] beta u k inner[k]   | act        inner = the next k answers of the (shadowed) inner Thompson policy, u drives pickBest
@@ -69,8 +72,38 @@ def sepB (q : Nat → Rat) (n : Nat) : Bool :=
   (List.range n).all (fun i => (List.range n).all (fun j => !(ceG (q i) (q j)) || decide (q i = q j)))
 
 def maxL (l : List Rat) : Rat := l.foldl maxQ (l.getD 0 0)
+def maxAbsL (l : List Rat) : Rat := l.foldl (fun m x => maxQ m (absQ x)) 0
+
+/-- some pair sits within 0.1 % of one of the two tolerance thresholds: the double comparison may round either way -/
+def illB (q : Nat → Rat) (n : Nat) : Bool :=
+  let near := fun (d t : Rat) => d != 0 && decide (t * (999 / 1000) ≤ d) && decide (d ≤ t * (1001 / 1000))
+  (List.range n).any (fun i => (List.range n).any (fun j =>
+    let d := absQ (q i - q j)
+    near d tolS || near d (minQ (absQ (q i)) (absQ (q j)) * tolG)))
+
+def cmpOf (g : Bool) : Cmp := if g then ceG else ceS
+/-- QGreedyPolicyWrapper as the source currently has it (translator: `Gen.C09.greedy…`) -/
+def gform : GForm := ⟨AITB.Gen.C09.greedyMaxFirst, cmpOf AITB.Gen.C09.greedyCmpSampleG, cmpOf AITB.Gen.C09.greedyCmpProbG,
+  cmpOf AITB.Gen.C09.greedyCmpPol1G, cmpOf AITB.Gen.C09.greedyCmpPol2G⟩
+/-- WoLFPolicy::stepUpdateP's own copy of the scan -/
+def wolfForm : GForm := ⟨false, cmpOf AITB.Gen.C09.wolfCmpG, ceG, ceG, ceG⟩
 
 def lemireGet (r : Nat) (ws : List Nat) : Option Nat := (lemire r ws).map (·.1)
+
+/-- the property clauses of a greedy-type policy on the implementation's own outputs.  On clustered rows (`clsB`) each clause is
+    reported under its own name; on rows where `checkEqualGeneral` is not transitive (chains of near-ties) any incoherence is
+    reported under the single clause `incoherent_on_nontransitive_ties` (recorded finding; never masks a failure on a clustered row). -/
+def greedyJudge (v : Verdict) (comp : String) (qf : Nat → Rat) (q : List Rat) (n : Nat) (probs policy : List Rat) (samples : List Nat) : Verdict :=
+  let j : Verdict := {}
+  let j := coherent j comp n probs policy samples
+  let mx := maxL q
+  let j := j.failIf ((List.range n).any (fun a => decide (probs.getD a 0 > 0) && !(ceG (qf a) mx))) s!"{comp} mass_off_argmax query"
+  let j := j.failIf ((List.range n).any (fun a => decide (policy.getD a 0 > 0) && !(ceG (qf a) mx))) s!"{comp} mass_off_argmax table"
+  let j := j.failIf (samples.any (fun a => !(ceG (qf a) mx))) s!"{comp} mass_off_argmax sample"
+  if clsB qf n then { v with fails := v.fails ++ j.fails, diffs := v.diffs ++ j.diffs }
+  else match j.fails with
+    | f :: _ => { v with diffs := v.diffs ++ j.diffs }.failIf true s!"{comp} incoherent_on_nontransitive_ties ({f})"
+    | [] => { v with diffs := v.diffs ++ j.diffs }
 
 /-- greedy -/
 def greedy : P String := do
@@ -81,19 +114,15 @@ def greedy : P String := do
   P.eof
   if n == 0 then return "skip empty" else
   let qf := fn q
+  if illB qf n then return "skip ill_conditioned" else
   let sep := sepB qf n
-  let v : Verdict := { tag := if sep then "greedy" else "greedy nonsep" }
-  let v := v.diffIf (!(closeL (tab n (gProb qf n)) probs)) s!"{comp} getActionProbability model={showL (tab n (gProb qf n))} impl={showL probs}"
-  let v := v.diffIf (!(closeL (tab n (gPolicy qf n)) policy)) s!"{comp} getPolicy model={showL (tab n (gPolicy qf n))} impl={showL policy}"
-  let v := samp.foldl (fun v (w, a) => v.diffIf (gSample qf n w != some a) s!"{comp} sampleAction model={gSample qf n w} impl={a}") v
-  -- outside the separation hypothesis only the correspondence is checked (the property does not quantify over such inputs)
-  if !sep then return v.render else
-  let v := coherent v comp n probs policy (samp.map (·.2))
-  let mx := maxL q
-  let v := v.failIf ((List.range n).any (fun a => decide (probs.getD a 0 > 0) && decide (qf a < mx))) s!"{comp} mass_off_argmax query"
-  let v := v.failIf ((List.range n).any (fun a => decide (policy.getD a 0 > 0) && decide (qf a < mx))) s!"{comp} mass_off_argmax table"
-  let v := v.failIf (samp.any (fun (_, a) => decide (qf a < mx))) s!"{comp} mass_off_argmax sample"
-  return v.render
+  let v : Verdict := { tag := if sep then "greedy" else if clsB qf n then "greedy classes" else "greedy nontransitive" }
+  let mP := tab n (gform.prob qf n)
+  let mT := tab n (gform.policy qf n)
+  let v := v.diffIf (!(closeL mP probs)) s!"{comp} getActionProbability model={showL mP} impl={showL probs}"
+  let v := v.diffIf (!(closeL mT policy)) s!"{comp} getPolicy model={showL mT} impl={showL policy}"
+  let v := samp.foldl (fun v (w, a) => v.diffIf (gform.sample qf n w != some a) s!"{comp} sampleAction model={gform.sample qf n w} impl={a}") v
+  return (greedyJudge v comp qf q n probs policy (samp.map (·.2))).render
 
 def random : P String := do
   let comp ← P.tok; let n ← P.nat; P.bar
@@ -133,27 +162,31 @@ def softmax : P String := do
   if n == 0 then return "skip empty" else
   let qf := fn q
   let ex := if AITB.Gen.C09.smSubtractMax then es else e
-  if ex.any (fun x => match x with | .nan | .ninf => true | _ => false) then return "skip exp_nan" else
-  let inf := fun i => isInfX (ex.getD i (.fin 0))
-  let ef := fun i => finOr0 (ex.getD i (.fin 0))
   let deleg := smDelegates t
+  -- (with T ~ 0 the members delegate to the greedy wrapper before any exponential is taken)
+  if !deleg && ex.any (fun x => match x with | .nan | .ninf => true | _ => false) then return "skip exp_nan" else
+  let inf := fun i => !deleg && isInfX (ex.getD i (.fin 0))
+  let ef := fun i => finOr0 (ex.getD i (.fin 0))
   let v : Verdict := { tag := if deleg then "softmax greedy" else if (List.range n).any inf then "softmax inf" else "softmax" }
   let (v, probs) := xrow v comp "query" probsX
   let (v, policy) := xrow v comp "table" policyX
+  -- hypotheses of `softmax_submax_distribution` on the exponentials the harness took with the library's expression
+  let v := v.diffIf (AITB.Gen.C09.smSubtractMax && !deleg && !((List.range n).all (fun i => !(inf i) && decide (0 ≤ ef i) && decide (ef i ≤ 1)) && (List.range n).any (fun i => ef i == 1)))
+    s!"{comp} exp_hypothesis: exp((q - max)/T) not in [0,1] with a 1"
   let sumE := sumTo n ef
   -- model (skipped where the model itself divides by zero: the implementation then produces NaN, reported above)
   let degenerate := !deleg && !((List.range n).any inf) && sumE == 0
-  let mProb := if deleg then gProb qf n else smProb ef inf n
-  let mPol := if deleg then gPolicy qf n else smPolicy AITB.Gen.C09.smPolicySmallSumUniform ef inf n
+  if deleg && illB qf n then return "skip ill_conditioned" else
+  let mProb := if deleg then gform.prob qf n else smProb ef inf n
+  let mPol := if deleg then gform.policy qf n else smPolicy AITB.Gen.C09.smPolicySmallSumUniform ef inf n
   let v := v.diffIf (!degenerate && !(closeL (tab n mProb) probs)) s!"{comp} getActionProbability model={showL (tab n mProb)} impl={showL probs}"
   let v := v.diffIf (!(degenerate && !AITB.Gen.C09.smPolicySmallSumUniform) && !(closeL (tab n mPol) policy)) s!"{comp} getPolicy model={showL (tab n mPol)} impl={showL policy}"
   let v := samp.foldl (fun v (u, w, a) =>
-      let m := if deleg then gSample qf n w else smSample ef inf n u w
+      let m := if deleg then gform.sample qf n w else smSample ef inf n u w
       -- the scan compares u with rounded cumulative sums: compare only when u is not within 1e-9 of a breakpoint
       let near := !deleg && !((List.range n).any inf) && (List.range (n + 1)).any (fun k => closeQ tol (sumTo k (fun i => ef i / sumE)) u)
       v.diffIf (!degenerate && !near && m != some a) s!"{comp} sampleAction model={m} impl={a}") v
-  let sep := sepB qf n
-  if deleg && !sep then return v.render else
+  if deleg then return (greedyJudge v comp qf q n probs policy (samp.map (·.2.2))).render else
   return (coherent v comp n probs policy (samp.map (·.2.2))).render
 
 def eps : P String := do
@@ -173,7 +206,7 @@ def eps : P String := do
   if !(closeQ tol (sumL wp) 1) || wp.any (· < 0) then return v.render else
   return (coherent v comp n probs policy (samp.map (·.2.2.2))).render
 
-/-- `kind` = exact (tables must be identical) | close (within 1e-9) -/
+/-- `kind` = exact (tables must be identical) | close (within 1e-9) | closeS (as close, admissible only when the softmax subtracts the maximum) | none (samples only) -/
 def shift : P String := do
   let comp ← P.tok; let kind ← P.tok; let n ← P.nat; let q ← P.rep P.q n; let c ← P.q; P.bar
   let pa ← P.rep P.x n; let pb ← P.rep P.x n
@@ -181,7 +214,9 @@ def shift : P String := do
   let samp ← P.rep (do let a ← P.nat; let b ← P.nat; pure (a, b)) ns
   P.eof
   let qf := fn q
-  if kind == "exact" && !(sepB qf n && sepB (fun i => qf i + c) n) then return "skip not_separated" else
+  -- "shifts that … preserve that separation": both rows clustered, same tie relation, no pair at a tolerance threshold
+  if kind == "exact" && !(clsB qf n && clsB (fun i => qf i + c) n && sameRelB qf c n && !(illB qf n) && !(illB (fun i => qf i + c) n)) then return "skip not_separated" else
+  if kind == "closeS" && !AITB.Gen.C09.smSubtractMax then return "skip inadmissible_shift" else
   let v : Verdict := { tag := "shift" }
   match finL pa, finL pb with
   | some a, some b =>
@@ -234,14 +269,14 @@ def wolf : P String := do
   let st0 : List (List Rat × List Rat × Nat) := List.replicate S (uni, uni, 0)
   let (v, st) := (ops.zip rows).foldl (fun (v, st) ((s, q, w), row) =>
       let r := st.getD s (uni, uni, 0)
-      match gSample (fn q) n w with
+      match wolfForm.sample (fn q) n w with
       | none => (v.diffIf true s!"{comp} words_exhausted", st)
       | some best =>
         let r0 : WRow := ⟨fn r.1, fn r.2.1, r.2.2⟩
         let r' := wolfStep n dW dL sc (fn q) best r0
         -- the learning-rate choice compares two expected values: below a margin of 1e-9 the step is not compared
         let (avgV, actV) := wolfVals n (fn q) r0
-        let ill := closeQ tol avgV actV && decide (dW ≠ dL)
+        let ill := (closeQ tol avgV actV || decide (absQ (avgV - actV) ≤ maxAbsL q / 8796093022208)) && decide (dW ≠ dL) || illB (fn q) n
         -- the model follows the implementation's own row (the hidden running average is the model's)
         (v.diffIf (!ill && !(closeL (tab n r'.act) row)) s!"{comp} stepUpdateP model={showL (tab n r'.act)} impl={showL row}",
          st.set s (tab n r'.avg, row, r'.c))) (v, st0)
@@ -272,9 +307,14 @@ def pgaapp : P String := do
       let pre := fn (tab n (pgaPre n lr pl (fn q) r))
       let sum := projSum n pre
       -- tolerance branches of projectToProbability: skip the comparison when the margin is below 1e-9
-      let ill := closeQ tol (absQ (sum - 1)) tolS || closeQ tol (absQ sum) tolS || closeQ tol sum 1 && !(ceS sum 1)
+      -- rounding of `avgR = row·q` (error ≈ |q|·2^-50) is amplified by lr·(1+pl)/(1-row a): the comparison tolerance follows it
+      let amp := (tab n r).foldl (fun m x => if ceS x 1 then m else maxQ m (1 / (1 - x))) 1
+      let tolP := tol + maxAbsL q * lr * (1 + pl) * amp / 17592186044416
+      let nearP := fun (a b : Rat) => decide (absQ (a - b) ≤ tolP)
+      let ill := nearP (absQ (sum - 1)) tolS || nearP (absQ sum) tolS || nearP sum 1 && !(ceS sum 1)
       let r' := tab n (project AITB.Gen.C09.projRepaired n pre)
-      (v.diffIf (!ill && !(closeL r' row)) s!"{comp} stepUpdateP model={showL r'} impl={showL row}", st.set s row)) (v, st0)
+      let closeP := r'.length == row.length && (r'.zip row).all (fun (x, y) => nearP x y)
+      (v.diffIf (!ill && !closeP) s!"{comp} stepUpdateP model={showL r'} impl={showL row}", st.set s row)) (v, st0)
   let v := samp.foldl (fun v (s, u, x) =>
       let row := final.getD s []
       let near := (List.range (n + 1)).any (fun j => closeQ tol (sumTo j (fn row)) u)
@@ -307,6 +347,56 @@ def mc : P String := do
   let v := rowClauses v comp "table" policy
   let v := v.failIf (probs.any (fun p => p < 0 || p > 1)) s!"{comp} query_negative {showL probs}"
   let v := v.failIf (samp.any (· ≥ n)) s!"{comp} sample_out_of_range {samp}"
+  return v.render
+
+/-- Monte-Carlo tables against the sampling frequencies of an identical copy of the policy (same engine state):
+    `mc2 <comp> n trials cnt[n] qtrials qcnt[n] | policy[n] probs[n]` -/
+def mc2 : P String := do
+  let comp ← P.tok; let n ← P.nat; let trials ← P.nat; let cnt ← P.rep P.nat n
+  let qtrials ← P.nat; let qcnt ← P.rep P.nat n; P.bar
+  let policy ← P.rep P.q n; let probs ← P.rep P.q n; P.eof
+  let v : Verdict := { tag := "mc2" }
+  let cf := fun i => cnt.getD i 0
+  let mT := tab n (mcTable n cf)
+  let mP := tab n (fun a => mcQuery qtrials (qcnt.getD a 0))
+  let v := v.diffIf (!(closeL mT policy)) s!"{comp} getPolicy model={showL mT} impl={showL policy}"
+  let v := v.diffIf (!(closeL mP probs)) s!"{comp} getActionProbability model={showL mP} impl={showL probs}"
+  -- property clauses on the implementation's own outputs: the table is a distribution, it advertises exactly the sampling
+  -- frequencies (positive only on sampled actions), every sample was in range
+  let v := rowClauses v comp "table" policy
+  let v := v.failIf (probs.any (fun p => p < 0 || p > 1)) s!"{comp} query_negative {showL probs}"
+  let v := v.failIf (cnt.foldl (· + ·) 0 != trials) s!"{comp} sample_out_of_range total={cnt.foldl (· + ·) 0} trials={trials}"
+  let v := v.failIf ((List.range n).any (fun a => decide (policy.getD a 0 > 0) && cf a == 0)) s!"{comp} table_mass_on_unsampled {showL policy}"
+  let v := v.failIf ((List.range n).any (fun a => decide (policy.getD a 0 ≤ 0) && cf a != 0)) s!"{comp} sample_zero_prob {cnt}"
+  return v.render
+
+/-- `recommend <comp> n mean[n] | act` : the recommended arm maximises the estimates -/
+def recommendOp : P String := do
+  let comp ← P.tok; let n ← P.nat; let mean ← P.rep P.q n; P.bar
+  let act ← P.nat; P.eof
+  let v : Verdict := { tag := "recommend" }
+  let v := v.diffIf (recommend (fn mean) n != act) s!"{comp} recommendAction model={recommend (fn mean) n} impl={act}"
+  let v := v.failIf (act ≥ n) s!"{comp} sample_out_of_range {act}"
+  let v := v.failIf (act < n && mean.any (fun x => decide (fn mean act < x))) s!"{comp} recommend_not_max act={act} means={showL mean}"
+  return v.render
+
+/-- `fprob <comp> m A[m] eps g[m] np { a[m] p } ns { act[m] }` : per-joint-action queries over the whole joint space -/
+def fprob : P String := do
+  let comp ← P.tok; let m ← P.nat; let A ← P.rep P.nat m; let eps ← P.q; let g ← P.rep P.nat m
+  let np ← P.nat
+  let entries ← P.rep (do let a ← P.rep P.nat m; let p ← P.q; pure (a, p)) np
+  let ns ← P.nat; let samp ← P.rep (P.rep P.nat m) ns; P.eof
+  let v : Verdict := { tag := "fprob" }
+  let N := A.foldl (· * ·) 1
+  let v := v.diffIf (np != N) s!"{comp} joint_space size model={N} harness={np}"
+  let v := v.diffIf (entries.any (fun (a, p) => !(closeQ tol (jointEps eps N g a) p))) s!"{comp} getActionProbability model≠impl"
+  -- property clauses on the implementation's own numbers
+  let ps := entries.map (·.2)
+  let v := v.failIf (!((entries.map (·.1)).eraseDups.length == N && entries.all (fun (a, _) => (A.zip a).all (fun (k, x) => x < k))))
+    s!"{comp} joint_space_not_enumerated"
+  let v := rowClauses v comp "query" ps
+  let v := v.failIf (samp.any (fun a => (A.zip a).any (fun (k, x) => x ≥ k))) s!"{comp} joint_out_of_range {samp}"
+  let v := v.failIf (samp.any (fun a => entries.any (fun (b, p) => b == a && decide (p ≤ 0)))) s!"{comp} sample_zero_prob {samp}"
   return v.render
 
 def esrl : P String := do
@@ -420,6 +510,9 @@ def handle (toks : List String) : String :=
     | "pgaapp" :: rest => P.run pgaapp rest
     | "thompson" :: rest => P.run thompson rest
     | "mc" :: rest => P.run mc rest
+    | "mc2" :: rest => P.run mc2 rest
+    | "recommend" :: rest => P.run recommendOp rest
+    | "fprob" :: rest => P.run fprob rest
     | "esrl" :: rest => P.run esrl rest
     | "sr" :: rest => P.run sr rest
     | "joint" :: rest => P.run joint rest
